@@ -20,7 +20,7 @@ BINDINGS = ["visible-undeclared", "declared-parameter", "local-assigned-earlier"
             "assigned-in-except-earlier", "except-as-name-earlier", "assigned-in-for-else-earlier", "assigned-in-try-finally-earlier", "local-import-earlier", "local-from-import-earlier",
             "local-def-earlier", "local-class-earlier", "tuple-unpack-earlier", "starred-unpack-earlier", "walrus-earlier", "match-capture-earlier", "assigned-in-match-case-earlier",
             "assigned-in-while-body-earlier", "nested-with-as-tuple-earlier", "async-for-target-earlier", "assigned-in-except-star-earlier", "assigned-earlier-and-rebound-later", "augmented-earlier-and-rebound-later"]
-FLAVOURS = ["test", "fixture"]
+FLAVOURS = ["test", "fixture", "fixture-named-like-a-test"]
 DIMS = [("shape", SHAPES), ("body", BODIES), ("binding", BINDINGS), ("flavour", FLAVOURS)]
 
 def body_lines(form, N):
@@ -62,8 +62,8 @@ def build(a):
     ind = ""
     if shape == "method":
         L.append("class TestHolder:"); ind = "    "
-    name = "test_target" if flav == "test" else "target_fx"
-    if flav == "fixture": L.append(ind + "@pytest.fixture")
+    name = {"test": "test_target", "fixture": "target_fx", "fixture-named-like-a-test": "test_target_fx"}[flav]
+    if flav != "test": L.append(ind + "@pytest.fixture")
     if shape == "decorated": L.append(ind + "@pytest.mark.skip")
     p = "a"
     declared = [N] if bind == "declared-parameter" else []
